@@ -417,6 +417,118 @@ func tarOffsets(rng *rand.Rand, l, max int) []int {
 	return sortedInts(m)
 }
 
+// countingReader hides everything but Read (no Seek: archive/tar must read, not skip) and counts.
+type countingReader struct {
+	r io.Reader
+	n int
+}
+
+func (c *countingReader) Read(p []byte) (int, error) {
+	n, err := c.r.Read(p)
+	c.n += n
+	return n, err
+}
+
+// tarCutPoints walks the raw tar and returns the offsets at which a stream that simply stops is
+// still a syntactically clean sequence of whole entries: 0, the padded end of every entry
+// (`boundary`), and — for entries whose data does not fill its last block — offsets from the end
+// of the data up to the padded end (`padding`: data end, one byte further, one byte before the
+// next header). Every stored file is complete in a stream cut there; what is missing is every
+// later entry and the end-of-archive footer.
+func tarCutPoints(entry []byte) (boundary, padding []int, padRanges [][2]int) {
+	cr := &countingReader{r: bytes.NewReader(entry)}
+	tr := tar.NewReader(cr)
+	boundary = []int{0}
+	for {
+		h, err := tr.Next()
+		if err != nil {
+			return
+		}
+		size := 0
+		if h.Typeflag == tar.TypeReg {
+			size = int(h.Size)
+		}
+		dataEnd := cr.n + size
+		padded := cr.n + (size+511)/512*512
+		if padded > len(entry) {
+			return
+		}
+		boundary = append(boundary, padded)
+		if size > 0 && dataEnd < padded {
+			padRanges = append(padRanges, [2]int{dataEnd, padded})
+		}
+		for _, k := range []int{dataEnd, dataEnd + 1, padded - 1} {
+			if size > 0 && k >= dataEnd && k < padded {
+				padding = append(padding, k)
+			}
+		}
+		if _, err := io.Copy(io.Discard, tr); err != nil {
+			return
+		}
+	}
+}
+
+// silentOffsets picks the offsets for retrieve commands that stop early but exit 0: offset 0, the
+// last entry boundary (everything but the footer), entry boundaries and in-padding offsets in
+// between, one zero block of the footer, and seeded random offsets anywhere (inside headers and
+// file data), max in all.
+func silentOffsets(rng *rand.Rand, entry []byte, max int) (offs []int, class map[int]string) {
+	l := len(entry)
+	boundary, padding, padRanges := tarCutPoints(entry)
+	class = map[int]string{}
+	add := func(k int, c string) {
+		if _, dup := class[k]; !dup && k >= 0 && k < l && len(class) < max {
+			class[k] = c
+		}
+	}
+	isBoundary := map[int]bool{}
+	for _, b := range boundary {
+		isBoundary[b] = true
+	}
+	add(0, "cut-at-offset-0")
+	if n := len(boundary); n > 1 {
+		add(boundary[n-1], "cut-before-footer")
+	}
+	rng.Shuffle(len(boundary), func(i, j int) { boundary[i], boundary[j] = boundary[j], boundary[i] })
+	rng.Shuffle(len(padding), func(i, j int) { padding[i], padding[j] = padding[j], padding[i] })
+	// alternate between further entry boundaries and in-padding offsets, keeping one slot for a
+	// random offset
+	turn := rng.Intn(2)
+	for bi, pi := 0, 0; len(class) < max-1 && (bi < len(boundary) || pi < len(padding)); turn++ {
+		if (turn%2 == 0 || pi >= len(padding)) && bi < len(boundary) {
+			add(boundary[bi], "cut-on-entry-boundary")
+			bi++
+		} else if pi < len(padding) {
+			add(padding[pi], "cut-in-entry-padding")
+			pi++
+		}
+	}
+	if l >= 512 && rng.Intn(4) == 0 {
+		add(l-512, "cut-inside-footer")
+	}
+	for tries := 0; len(class) < max && tries < 100; tries++ {
+		k := rng.Intn(l)
+		c := "cut-inside-entry"
+		if isBoundary[k] {
+			c = "cut-on-entry-boundary"
+		}
+		for _, pr := range padRanges {
+			if k >= pr[0] && k < pr[1] {
+				c = "cut-in-entry-padding"
+			}
+		}
+		if k > l-1024 {
+			c = "cut-inside-footer"
+		}
+		add(k, c)
+	}
+	m := map[int]bool{}
+	for k := range class {
+		m[k] = true
+	}
+	return sortedInts(m), class
+}
+
 type mon struct {
 	phMu  sync.Mutex
 	phase map[string]float64
@@ -949,10 +1061,25 @@ func (m *mon) cmdCase(ci caseInfo, rng *rand.Rand, maxOffsets, maxStoreOffsets, 
 				"store_command": plain.store(), "retrieve_command": plain.retrieve()})
 		}
 
-		// retrieve side: the command emits k bytes of the entry and then fails
+		// retrieve side: the command emits k bytes of the entry and then fails, or (silent) stops
+		// there and exits 0. A third of the offset budget goes to the silent shape, aimed at the
+		// offsets where the cut stream is a clean sequence of whole entries.
 		file := dir + `/$CACHE_KEY`
-		for n, k := range tarOffsets(rng, l, maxOffsets) {
-			how := []string{"exit1", "exit1", "kill9", "silent"}[(n+ci.idx)%4]
+		nSilent := maxOffsets / 3
+		type cut struct {
+			k          int
+			how, class string
+		}
+		var cuts []cut
+		for n, k := range tarOffsets(rng, l, maxOffsets-nSilent) {
+			cuts = append(cuts, cut{k: k, how: []string{"exit1", "exit1", "kill9"}[(n+ci.idx)%3]})
+		}
+		sOffs, sClass := silentOffsets(rng, entry, nSilent)
+		for _, k := range sOffs {
+			cuts = append(cuts, cut{k: k, how: "silent", class: sClass[k]})
+		}
+		for _, ct := range cuts {
+			k, how := ct.k, ct.how
 			var rc string
 			switch how {
 			case "exit1":
@@ -960,8 +1087,9 @@ func (m *mon) cmdCase(ci caseInfo, rng *rand.Rand, maxOffsets, maxStoreOffsets, 
 			case "kill9":
 				rc = fmt.Sprintf(`head -c %d "%s"; kill -9 $$`, k, file)
 			case "silent":
-				// Exit status 0 after a silent truncation: nothing failed from where Please stands, so only
-				// observed, never asserted (a cut on an entry boundary is a syntactically clean tar stream).
+				// Exit status 0 after a silent truncation (`fetch | decode` without pipefail, a
+				// fetcher that takes a dropped connection for the end of the data). The command did
+				// not fail, but whatever Retrieve answers, a hit must have restored the stored set.
 				rc = fmt.Sprintf(`head -c %d "%s"`, k, file)
 			}
 			cc := cache.VerifNewCmdCache(cmdConfig(plain.store(), rc))
@@ -970,17 +1098,29 @@ func (m *mon) cmdCase(ci caseInfo, rng *rand.Rand, maxOffsets, maxStoreOffsets, 
 				return false
 			}
 			r.Obs("cmd_commands_run", 1)
-			r.Case(fmt.Sprintf("cmd/get/%s/%d/%s", how, k, desc), nontrivialSet && k > 0)
+			r.Case(fmt.Sprintf("cmd/get/%s/%d/%s", how, k, desc), nontrivialSet && (k > 0 || how == "silent"))
 			r.Obs("cmd_retrieve_fault_evaluated_"+how, 1)
+			if how == "silent" {
+				r.Obs("cmd_silent_truncation_"+ct.class, 1)
+			}
 			if !hit {
 				r.Obs("cmd_retrieve_fault_reported_miss", 1)
 				continue
 			}
 			r.Obs("cmd_retrieve_fault_reported_hit", 1)
 			if how == "silent" {
-				if k < l && len(lib.Diff(ref, got)) > 0 {
-					r.Obs("cmd_silent_truncation_on_entry_boundary_hit_incomplete_not_asserted", 1)
+				if k >= l {
+					continue
 				}
+				d := lib.Diff(ref, got)
+				if len(d) == 0 {
+					// only footer bytes were lost: nothing is missing or truncated
+					r.Obs("cmd_silent_truncation_hit_complete_"+ct.class, 1)
+					continue
+				}
+				r.Violation("cmd/retrieve/command-silent-truncation/"+ct.class+"/hit-"+lossClass(d),
+					fmt.Sprintf("retrieve command wrote %d of %d bytes (%s) and exited 0; Retrieve reported a hit but the restored tree is not the stored set: %s", k, l, ct.class, shortDiff(d)),
+					m.wit(ci, map[string]any{"k": k, "entry_bytes": l, "cut": ct.class, "retrieve_command": rc, "diff": d}), ci.idx)
 				continue
 			}
 			d := lib.Diff(ref, got)
@@ -1259,13 +1399,14 @@ func TestC13(t *testing.T) {
 	r := lib.Start("C13")
 	defer lib.End(t, r)
 	r.Level = "fault_enumeration"
-	r.Rule = "one case = (output set, cache kind, fault). Output sets: 5 fixed sets (4 small, 1 with a 300 KB file first) + seeded random sets (cachelib.GenOutSet rich: 1-4 outs, >=1 directory output with >=3 files, nested dirs, symlinks, tar block-boundary sizes, long names; every 5th with 20-200 KB incompressible files). Faults per set: HTTP retrieve = server sends k body bytes then closes, k = every offset of entries <= 200 bytes else gzip header + last 24 + random up to 200, framing cl/eof/chunked by (k+i)%3; statuses 400/403/500/503 with a valid archive as body; HTTP store = connection dropped / 500 after k request-body bytes, full body then 500 or no response; one retry variant each; command retrieve = `head -c k; exit 1|kill -9 $$|(silent)` at tar block boundaries (±1), before the footer, and random offsets; command store = `exit 1`, `head -c k > tmp; exit 1`, `cat > tmp; exit 1`; read faults = each regular-file position i replaced by a socket inode, for HTTP and for two store-command shapes (and-list, and-list piped to a log). Distinct by (kind, fault, k or i, materialised set); non-trivial = set restores >= 2 nodes and k > 0 (read faults: >= 2 regular files)."
+	r.Rule = "one case = (output set, cache kind, fault). Output sets: 5 fixed sets (4 small, 1 with a 300 KB file first) + seeded random sets (cachelib.GenOutSet rich: 1-4 outs, >=1 directory output with >=3 files, nested dirs, symlinks, tar block-boundary sizes, long names; every 5th with 20-200 KB incompressible files). Faults per set: HTTP retrieve = server sends k body bytes then closes, k = every offset of entries <= 200 bytes else gzip header + last 24 + random up to 200, framing cl/eof/chunked by (k+i)%3; statuses 400/403/500/503 with a valid archive as body; HTTP store = connection dropped / 500 after k request-body bytes, full body then 500 or no response; one retry variant each; command retrieve = `head -c k; exit 1|kill -9 $$` at tar block boundaries (±1), before the footer, and random offsets, plus (a third of the offsets) `head -c k` exiting 0 at offset 0, entry boundaries, inside the padding after a file's data, before / inside the footer and one random offset; command store = `exit 1`, `head -c k > tmp; exit 1`, `cat > tmp; exit 1`; read faults = each regular-file position i replaced by a socket inode, for HTTP and for two store-command shapes (and-list, and-list piped to a log). Distinct by (kind, fault, k or i, materialised set); non-trivial = set restores >= 2 nodes and k > 0 (read faults: >= 2 regular files)."
 	r.Assumes = []string{
 		"the harness HTTP server's contract: a PUT is committed only after its body was read to a clean EOF of the announced length; GET serves committed bytes verbatim",
 		"custom commands commit by rename after their stdin reached a clean EOF (`cat > tmp && mv tmp final`, `{ cat > tmp && mv tmp final; } 2>&1 | cat >> store.log`); /bin/sh, cat, head, mv behave as POSIX says",
 		"mknod(S_IFSOCK) yields an inode that Lstat reports and archive/tar refuses (deterministic, no privileges)",
 		"cache.VerifNewHTTPCache/VerifNewCmdCache are what cache.NewCache builds for an HTTP-only / command-only configuration (no multiplexer, Workers=0)",
-		"a hit whose restored tree is complete is not flagged even if the transport was cut inside the gzip trailer (nothing is missing or truncated)",
+		"a hit whose restored tree is complete is not flagged even if the transport was cut inside the gzip trailer or the tar footer (nothing is missing or truncated)",
+		"a retrieve command that stops early and exits 0 may be answered with a miss or a hit; only a hit whose restored tree differs from the stored set is a violation",
 	}
 
 	// A store command that dies early leaves Please's archive-writing goroutine blocked on its pipe
@@ -1354,5 +1495,5 @@ func TestC13(t *testing.T) {
 	r.Obs("open_fault_hook_present", map[bool]int64{true: 1, false: 0}[m.hook])
 
 	r.RequireObserved("http_healthy_roundtrips", "cmd_healthy_roundtrips", "http_retrieve_cut_evaluated", "http_put_committed",
-		"http_store_fault_evaluated", "http_read_fault_evaluated", "cmd_retrieve_fault_evaluated_exit1", "cmd_store_fault_evaluated", "cmd_read_fault_evaluated_logged")
+		"http_store_fault_evaluated", "http_read_fault_evaluated", "cmd_retrieve_fault_evaluated_exit1", "cmd_retrieve_fault_evaluated_silent", "cmd_silent_truncation_cut-at-offset-0", "cmd_silent_truncation_cut-on-entry-boundary", "cmd_silent_truncation_cut-before-footer", "cmd_store_fault_evaluated", "cmd_read_fault_evaluated_logged")
 }
